@@ -126,10 +126,17 @@ fn children() -> Result<BTreeMap<String, Child>> {
 
 /// fill one outer slot with a proof and try to prove + verify the outer circuit
 fn try_outer(outer: &CircuitData<F, C, D>, slot: &plonky2::plonk::proof::ProofWithPublicInputsTarget<D>, extra: &[(Target, F)], proof: &Proof) -> Value {
+    try_outer_multi(outer, &[(slot, proof)], extra)
+}
+
+/// fill several outer slots and try to prove + verify the outer circuit
+fn try_outer_multi(outer: &CircuitData<F, C, D>, fills: &[(&plonky2::plonk::proof::ProofWithPublicInputsTarget<D>, &Proof)], extra: &[(Target, F)]) -> Value {
     let r = catch_unwind(AssertUnwindSafe(|| -> Value {
         let mut pw = PartialWitness::new();
-        if let Err(e) = pw.set_proof_with_pis_target(slot, proof) {
-            return json!({"accepted": 0, "stage": "fill", "msg": e.to_string().chars().take(60).collect::<String>()});
+        for (slot, proof) in fills {
+            if let Err(e) = pw.set_proof_with_pis_target(slot, proof) {
+                return json!({"accepted": 0, "stage": "fill", "msg": e.to_string().chars().take(60).collect::<String>()});
+            }
         }
         for (t, v) in extra {
             if pw.set_target(*t, *v).is_err() {
@@ -151,19 +158,28 @@ pub fn recursion_replay(inp: &str, outp: &str) -> Result<()> {
     engine::silence_panics();
     let cases: Vec<Value> = fs::read_to_string(inp)?.lines().filter(|l| !l.trim().is_empty()).map(|l| serde_json::from_str(l).unwrap()).collect();
     let ch = children()?;
-    // one outer private-batch circuit (one slot) per child circuit it can be built for
-    let mut outers: BTreeMap<String, Option<(CircuitData<F, C, D>, wormhole_aggregator::private_batch::circuit::circuit_logic::PrivateBatchCircuitTargets)>> = BTreeMap::new();
+    // outer private-batch circuits: per child circuit it can be built for and per batch size the cases ask for
+    type Outer = (CircuitData<F, C, D>, wormhole_aggregator::private_batch::circuit::circuit_logic::PrivateBatchCircuitTargets);
+    let mut outers: BTreeMap<(String, usize), Option<Outer>> = BTreeMap::new();
     let mut ctor: BTreeMap<String, String> = BTreeMap::new();
-    for (name, c) in &ch {
-        let r = catch_unwind(AssertUnwindSafe(|| PrivateBatchCircuit::new(wormhole_private_batch_circuit_config(), &c.data.common, &c.data.verifier_only, 1)));
-        match r {
+    let mut wanted: std::collections::BTreeSet<(String, usize)> = ch.keys().map(|k| (k.clone(), 1usize)).collect();
+    for c in &cases {
+        wanted.insert((c["built_for"].as_str().unwrap().to_string(), c["n"].as_u64().unwrap_or(1) as usize));
+    }
+    for (name, n) in &wanted {
+        let c = &ch[name];
+        let r = catch_unwind(AssertUnwindSafe(|| PrivateBatchCircuit::new(wormhole_private_batch_circuit_config(), &c.data.common, &c.data.verifier_only, *n)));
+        let res = match r {
             Ok(Ok(circ)) => {
                 let t = circ.targets();
-                outers.insert(name.clone(), Some((circ.build_circuit(), t)));
-                ctor.insert(name.clone(), "ok".into());
+                outers.insert((name.clone(), *n), Some((circ.build_circuit(), t)));
+                "ok"
             }
-            Ok(Err(_)) => { outers.insert(name.clone(), None); ctor.insert(name.clone(), "err".into()); }
-            Err(_) => { outers.insert(name.clone(), None); ctor.insert(name.clone(), "panic".into()); }
+            Ok(Err(_)) => { outers.insert((name.clone(), *n), None); "err" }
+            Err(_) => { outers.insert((name.clone(), *n), None); "panic" }
+        };
+        if *n == 1 || !ctor.contains_key(name) {
+            ctor.insert(name.clone(), res.into());
         }
     }
     use rayon::prelude::*;
@@ -175,14 +191,21 @@ pub fn recursion_replay(inp: &str, outp: &str) -> Result<()> {
                 let bf = c["built_for"].as_str().unwrap();
                 let by = c["proof_by"].as_str().unwrap();
                 let mut row = json!({"case": c, "ctor": ctor[bf]});
-                if let Some(Some((outer, t))) = outers.get(bf) {
+                let n = c["n"].as_u64().unwrap_or(1) as usize;
+                let slot = c["slot"].as_u64().unwrap_or(1) as usize - 1;
+                if let Some(Some((outer, t))) = outers.get(&(bf.to_string(), n)) {
                     let mut proof = ch[by].proof.clone();
                     if c["valid"].as_u64().unwrap() == 0 {
                         let k = proof.public_inputs.len() - 1;
                         proof.public_inputs[k] += F::ONE;
                     }
-                    let extra: Vec<(Target, F)> = t.dummy_nullifier_pre_images[0].iter().map(|x| (*x, F::ONE)).collect();
-                    row["outer"] = try_outer(outer, &t.leaf_proofs[0], &extra, &proof);
+                    // the examined proof in its slot, a valid proof of the circuit the outer was built for in every other slot;
+                    // every slot gets its own dummy replacement preimage
+                    let honest = &ch[bf].proof;
+                    let fills: Vec<(&plonky2::plonk::proof::ProofWithPublicInputsTarget<D>, &Proof)> =
+                        (0..n).map(|j| (&t.leaf_proofs[j], if j == slot { &proof } else { honest })).collect();
+                    let extra: Vec<(Target, F)> = (0..n).flat_map(|j| t.dummy_nullifier_pre_images[j].iter().map(move |x| (*x, f(j as u64 + 1)))).collect();
+                    row["outer"] = try_outer_multi(outer, &fills, &extra);
                 }
                 row
             })
@@ -191,7 +214,7 @@ pub fn recursion_replay(inp: &str, outp: &str) -> Result<()> {
     // public-batch outer over the canonical private batch (over the canonical leaf, one leaf): foreign inner proofs
     let pub_rows = catch_unwind(AssertUnwindSafe(|| -> Result<Vec<Value>> {
         let canon = &ch["canonical"];
-        let (pb_canon, pbt) = match outers.get("canonical") { Some(Some(x)) => (&x.0, &x.1), _ => return Ok(vec![json!({"public": "no canonical private batch"})]) };
+        let (pb_canon, pbt) = match outers.get(&("canonical".to_string(), 1)) { Some(Some(x)) => (&x.0, &x.1), _ => return Ok(vec![json!({"public": "no canonical private batch"})]) };
         let pubc = PublicBatchCircuit::new(wormhole_public_batch_circuit_config(), pb_canon.common.clone(), &pb_canon.verifier_only, 1, 1)?;
         let pt = pubc.targets();
         let pubd = pubc.build_circuit();
@@ -207,7 +230,7 @@ pub fn recursion_replay(inp: &str, outp: &str) -> Result<()> {
         let honest_inner = mk_inner(pb_canon, pbt, &canon.proof)?;
         out.push(json!({"public": "canonical inner", "expect": 1, "outer": try_outer(&pubd, &pt.private_batch_proofs[0], &addr, &honest_inner)}));
         // foreign inner 1: the private-batch circuit built over the range-only stand-in leaf (same shape: 29 public inputs)
-        if let Some(Some((pb_fake, tf))) = outers.get("sameshape_rangeonly") {
+        if let Some(Some((pb_fake, tf))) = outers.get(&("sameshape_rangeonly".to_string(), 1)) {
             let inner = mk_inner(pb_fake, tf, &ch["sameshape_rangeonly"].proof)?;
             out.push(json!({"public": "private batch over a foreign leaf", "expect": 0, "outer": try_outer(&pubd, &pt.private_batch_proofs[0], &addr, &inner)}));
         }
@@ -215,6 +238,30 @@ pub fn recursion_replay(inp: &str, outp: &str) -> Result<()> {
         let (d29, p29) = free_circuit(29, CircuitConfig::standard_recursion_config(), false, 0);
         let pr = prove_free(&d29, &p29, 7)?;
         out.push(json!({"public": "unconstrained 29-input circuit", "expect": 0, "outer": try_outer(&pubd, &pt.private_batch_proofs[0], &addr, &pr)}));
+        // two inner slots: a foreign inner proof in either slot, the canonical inner in the other
+        {
+            let pubc2 = PublicBatchCircuit::new(wormhole_public_batch_circuit_config(), pb_canon.common.clone(), &pb_canon.verifier_only, 2, 1)?;
+            let pt2 = pubc2.targets();
+            let pubd2 = pubc2.build_circuit();
+            let addr2: Vec<(Target, F)> = pt2.aggregator_address.iter().map(|x| (*x, F::TWO)).collect();
+            out.push(json!({"public": "two slots, canonical inner in both", "expect": 1,
+                            "outer": try_outer_multi(&pubd2, &[(&pt2.private_batch_proofs[0], &honest_inner), (&pt2.private_batch_proofs[1], &honest_inner)], &addr2)}));
+            // near miss: the foreign proof carries exactly the canonical inner's public inputs, so nothing but the binding to
+            // the child circuit can reject it
+            let twin = {
+                let mut pw = PartialWitness::new();
+                for (t, v) in p29.iter().zip(honest_inner.public_inputs.iter()) {
+                    pw.set_target(*t, *v)?;
+                }
+                d29.prove(pw).map_err(|e| anyhow!("{e}"))?
+            };
+            for s in 0..2 {
+                let fills = if s == 0 { [(&pt2.private_batch_proofs[0], &twin), (&pt2.private_batch_proofs[1], &honest_inner)] }
+                            else { [(&pt2.private_batch_proofs[0], &honest_inner), (&pt2.private_batch_proofs[1], &twin)] };
+                out.push(json!({"public": format!("two slots, an unconstrained circuit's proof with the canonical inner's public inputs in slot {}", s + 1), "expect": 0,
+                                "outer": try_outer_multi(&pubd2, &fills, &addr2)}));
+            }
+        }
         // constructor: an inner circuit whose public-input count is not 21N+8
         let bad = catch_unwind(AssertUnwindSafe(|| PublicBatchCircuit::new(wormhole_public_batch_circuit_config(), canon.data.common.clone(), &canon.data.verifier_only, 1, 1).is_ok()));
         out.push(json!({"public": "ctor over a 21-input inner", "expect_ctor": "err", "ctor": match bad { Ok(true) => "ok", Ok(false) => "err", Err(_) => "panic" }}));
